@@ -10,6 +10,112 @@ from simkit.progs import ALL_FEATURES, Gen, GenConfig
 from simkit.runner import RunOutcome
 
 
+CTX_TASKS = '''
+@task()
+def rd_(x, k):
+    hit('rd', x, k)
+    return mix('rd', x, k)
+
+
+@task()
+def rd(x):
+    return rd_(x, get_context('k', 0))
+
+
+@task()
+def rdd(x, c=get_context('k', 0)):
+    return mix('rdd', x, c)
+
+
+@task()
+def lookup():
+    return rd(7)
+
+
+@task()
+def viadef(x, off=lookup()):
+    return mix('viadef', x, off)
+
+
+@task(check_valid='shallow')
+def sh(x):
+    return rd(x)
+
+
+@task(check_valid='shallow')
+def shdef(x, off=lookup()):
+    return mix('shdef', x, off)
+
+
+@task()
+def wrap(x):
+    return rd(x)
+
+
+@task()
+def wrapo(x):
+    return rd.update_context({'k': 9})(x)
+
+
+@task()
+def delay(x):
+    return x
+
+'''
+
+
+def gen_ctx_family(ch: Choices):
+    """
+    Targeted family: a handful of context-reading tasks (in the body, in a default argument,
+    through a task call used as default argument, beneath a shallow-validity parent, beneath a
+    wrapper that overrides) called with equal arguments under different overrides and under
+    none, in simulator-chosen arrangements.  Returns (program, model) where model(root_context)
+    is the expected result list.
+    """
+    from simkit.progs import HEADER, RawProgram
+    from simkit.proglib import mix
+
+    def value(base: str, x: int, k: int) -> int:
+        if base == "rd" or base == "sh" or base == "wrap":
+            return mix("rd", x, k)
+        if base == "rdd":
+            return mix("rdd", x, k)
+        if base == "viadef":
+            return mix("viadef", x, mix("rd", 7, k))
+        if base == "shdef":
+            return mix("shdef", x, mix("rd", 7, k))
+        if base == "wrapo":
+            return mix("rd", x, 9)
+        raise AssertionError(base)
+
+    bases = ["rd", "rdd", "viadef", "sh", "shdef", "wrap", "wrapo"]
+    # swarm: each program concentrates on a few of the forms
+    focus = [b for b in bases if ch.coin(0.5, "focus")] or ["rd"]
+    n = 2 + ch.choice(4, "nitems")
+    items, models = [], []
+    for _ in range(n):
+        base = focus[ch.choice(len(focus), "base")]
+        x = ch.choice(2, "x")
+        arg = str(x)
+        for _ in range(ch.choice(3, "delays")):
+            arg = f"delay({arg})"
+        ov = [None, None, 1, 2][ch.choice(4, "override")]
+        call = f"{base}.update_context({{'k': {ov}}})({arg})" if ov is not None else f"{base}({arg})"
+        items.append(call)
+        models.append((base, x, ov))
+    if ch.coin(0.4, "seq"):
+        expr = f"seq([{', '.join(items)}])"
+    else:
+        expr = "[" + ", ".join(items) + "]"
+    src = HEADER.format(ns="vp") + CTX_TASKS + f"@task()\ndef t0():\n    return {expr}\n"
+
+    def model(root: dict) -> list:
+        return [value(b, x, ov if ov is not None else root.get("k", 0)) for b, x, ov in models]
+
+    distinct = len({(b, x) for b, x, _ in models}) < len({(b, x, ov) for b, x, ov in models})
+    return RawProgram(src), model, distinct
+
+
 class C05(EngineACheck):
     PROPERTY = "C05"
     RULE = (
@@ -20,17 +126,62 @@ class C05(EngineACheck):
         "execution's outcome must equal the reference interpreter's for its effective contexts "
         "(values differ per context by construction, so any sharing is visible); a case is "
         "(program, contexts, schedules); non-trivial = two calls with equal task and arguments but "
-        "different effective contexts exist"
+        "different effective contexts exist. Half of the programs come from a targeted family "
+        "(context read in a body, in a default argument, through a task call used as default "
+        "argument, beneath a shallow-validity parent, beneath an overriding wrapper; root context "
+        "from the configuration or from run()) judged against a closed-form model"
     )
-    EXPECTED_PROBES = ["colliding_calls", "executions_checked", "ctxfree_after_ctx_order"]
+    EXPECTED_PROBES = ["colliding_calls", "executions_checked", "family_programs"]
     QUICK_SECONDS = 35.0
+
+    def run_family(self, ch: Choices) -> RunOutcome:
+        out = RunOutcome()
+        prog, model, colliding = gen_ctx_family(ch)
+        out.probe("family_programs")
+        if colliding:
+            out.probe("colliding_calls")
+        db = schedsim.fresh_db("ctxfam.db")
+        nexec = 1 + ch.choice(3, "nexec")
+        w = res = None
+        with enginea.ProgramSession(prog) as sess:
+            for ex in range(nexec):
+                root = [{}, {"k": 5}, {"base": 1}, {"k": 1}][ch.choice(4, "root-context")]
+                via_config = bool(ch.choice(2, "root-via-config"))
+                res = enginea.simulate(ch, prog, db_path=db, session=sess,
+                                       context=root if via_config else {},
+                                       run_kwargs={"context": {} if via_config else root})
+                w = res.world
+                self.fill(out, w, prog, extra_key=f"{ex}{root!r}")
+                out.nontrivial = out.nontrivial or colliding
+                out.probe("executions_checked")
+                if res.outcome[0] == "abort":
+                    out.violate("C05.terminates", res.outcome[1], {})
+                    break
+                want = model(root)
+                got = res.outcome[1] if res.outcome[0] == "v" else repr(res.outcome[1])
+                if got != want:
+                    where = "first-execution" if ex == 0 else "later-execution"
+                    bad = [i for i in range(len(want))
+                           if not isinstance(got, list) or i >= len(got) or got[i] != want[i]]
+                    out.violate("C05.value_reflects_own_context", f"family/{where}",
+                                {"execution": ex, "root_context": root, "wrong_items": bad,
+                                 "t0": prog.source.split("def t0():")[-1].strip(),
+                                 "real": repr(got)[:200], "expected": repr(want)[:200]})
+                    break
+        if w is not None:
+            out.sample = {"t0": prog.source.split("def t0():")[-1].strip(),
+                          "schedule_events": [e[2:] for e in w.log[:40]]}
+        return out
 
     def run_one(self, ch: Choices) -> RunOutcome:
         from simkit.progs import walk
 
+        if ch.choice(2, "program-family") == 1:
+            return self.run_family(ch)
         out = RunOutcome()
-        feats = (set(ALL_FEATURES) | {"ctx"}) - {"errors", "catch", "catchall", "forkjoin", "async",
-                                                  "defaults"}
+        feats = (set(ALL_FEATURES) | {"ctx"}) - {"errors", "catch", "catchall", "forkjoin", "async"}
+        if ch.coin(0.5, "no-defaults"):
+            feats -= {"defaults"}
         cfg = GenConfig(features=feats, ctx_mode=None, modes=("thread", "thread", "process"),
                         max_tasks=6, p_ctx=0.5, p_dup=0.5,
                         task_options=[{"check_valid": "shallow"}], p_task_option=0.3)
